@@ -260,4 +260,45 @@ theorem navPair_trace (L Dm : AMat Rat n) (mh : Option ℕ) (fuel : ℕ) (i j : 
   obtain ⟨q, hq, h1, h2⟩ := navGo_trace L Dm mh j fuel i i 0 0 0 [i] r h
   exact ⟨q, by simpa using hq, h1, h2⟩
 
+
+theorem endState_spec : ∀ (p : List (Fin n)) (prev : Fin n) (k : ℕ) (a : Fin n),
+    (endState prev k a p).2.2 = lastOf a p ∧ (endState prev k a p).2.1 = k + p.length := by
+  intro p
+  induction p with
+  | nil => intro prev k a; exact ⟨rfl, rfl⟩
+  | cons b p ih =>
+    intro prev k a
+    simp only [endState, lastOf, List.length_cons]
+    obtain ⟨h1, h2⟩ := ih a (k + 1) b
+    exact ⟨h1, by rw [h2]; omega⟩
+
+/-- with `max_hops = h` the loop returns within `h + 3` evaluations of its condition -/
+theorem navGo_isSome (L Dm : AMat Rat n) (h : ℕ) (target : Fin n) :
+    ∀ (fuel : ℕ) (curr last : Fin n) (plb : ℕ) (plw pld : Rat) (path : List (Fin n)),
+      plb ≤ h + 1 → h + 3 ≤ fuel + plb → (navGo L Dm (some h) target fuel curr last plb plw pld path).isSome = true := by
+  intro fuel
+  induction fuel with
+  | zero => intro curr last plb plw pld path h1 h2; omega
+  | succ fuel ih =>
+    intro curr last plb plw pld path h1 h2
+    simp only [navGo]
+    by_cases hct : curr = target
+    · rw [if_pos hct]; rfl
+    · rw [if_neg hct]
+      rcases harg : argminFirst (fun x => Dm.get target x) (List.filter (fun x => decide (L.get curr x ≠ 0)) (List.finRange n)) with _ | next
+      · rfl
+      · dsimp only
+        split_ifs with hstop
+        · rfl
+        · rw [Bool.or_eq_true, not_or] at hstop
+          have hle : plb ≤ h := by
+            have := hstop.2
+            simp only [decide_eq_true_eq, not_lt] at this
+            exact this
+          exact ih next curr (plb + 1) _ _ _ (by omega) (by omega)
+
+theorem navPair_isSome (L Dm : AMat Rat n) (h fuel : ℕ) (hf : h + 3 ≤ fuel) (i j : Fin n) :
+    (navPair L Dm (some h) fuel i j).isSome = true :=
+  navGo_isSome L Dm h j fuel i i 0 0 0 [i] (by omega) (by omega)
+
 end Bct.Dist
